@@ -44,6 +44,12 @@ CURATED = [
     ("tuple-vs-list", "(a, b)", "[a, b]", "one"),
     ("redefinition", "n", "n", "one"),
 ]
+# node classes that have no structural case of their own are compared through mypy's rendering of them: texts that differ
+# only where such a rendering carries its own punctuation (`:<line>` tags, `ClassName(...)`), inside every such class
+_RENDER_TEXTS = [("host:80", "host:8080"), (":1", ":2"), ("a:-1", "a:-12"), ("NameExpr(a)", "NameExpr(b)"), ("x:3:y", "x:4:y"), ("1", "1 ")]
+_RENDER_WRAPS = [("bytes", "b{!r}"), ("lambda", "(lambda: {!r})"), ("conditional", "({!r} if a else 0)"), ("comprehension", "[{!r} for _ in xs]"),
+                 ("fstring", "f'{{a}}' {!r}"), ("str", "{!r}"), ("call-arg", "f(b{!r})"), ("set-comp", "{{{!r} for _ in xs}}")]
+CURATED += [(f"rendering-text:{w}", t.format(x), t.format(y), layout) for w, t in _RENDER_WRAPS for x, y in _RENDER_TEXTS for layout in ("one", "two")]
 
 UNREACHABLE = """
 import sys
